@@ -925,6 +925,12 @@ def _prim_atom(name, label, t, env, W):
         if isinstance(a, tuple) and a and a[0] in ("arr", "str"):
             return PI("usize", len(a[1]))
         return OPAQUE
+    if label.startswith("str::starts_with::<char>") and len(t[2]) == 2:
+        # `s.starts_with(c)` for an ASCII char: the first byte of the text equals it
+        a, c_ = ev(t[2][0], env, W), ev(t[2][1], env, W)
+        if isinstance(a, tuple) and a and a[0] == "str" and isinstance(c_, PI) and c_.v < 128 and all(isinstance(d, PI) for d in a[1]):
+            return len(a[1]) > 0 and a[1][0].v == c_.v
+        return OPAQUE
     if label == "str::as_bytes" and len(t[2]) == 1:
         a = ev(t[2][0], env, W)
         if isinstance(a, tuple) and a and a[0] == "str":
